@@ -77,6 +77,7 @@ def n_ops(e):
 
 # ------------------------------------------------------------ conversions
 MIXED = {1: 1, 2: "1", 3: 2, 4: "2", 5: 1.5, 6: "1.5"}     # distinct symbols that print alike
+COLLIDING = {1: -1, 2: -2, 3: 0, 4: 2 ** 61 - 1, 5: 2 ** 61, 6: 1}     # distinct symbols with equal hashes (CPython: hash(-1) == hash(-2), hash(2**61-1) == 0, hash(2**61) == 1)
 
 
 def to_impl(e, symmap=None):
